@@ -65,6 +65,7 @@ class Model:
         self.fail_stack: dict[int, list] = {}  # id(exc) -> use_stack snapshot
         self.fail_info: dict[int, tuple] = {}  # id(exc) -> (site, fn depth)
         self.lists: dict[str, int] = {}
+        self.tr_stack: list[dict] = []
         self.fn_depth = 0             # nesting of render functions
         self.err_records: list = []   # what fallbacks read from ``error``
         self._keep: list = []         # keeps exceptions alive (ids stay unique)
@@ -135,6 +136,21 @@ class Model:
             return self.error.type.__name__
         raise ValueError(k)
 
+    def translate_call(self) -> None:
+        """One call of the translation function (may be told to fail)."""
+        pr = self.probe
+        n = pr.count.get("T", 0)
+        pr.count["T"] = n + 1
+        pr.history.append("T")
+        do = pr.plan.get(("T", n)) or pr.plan.get(("T", "*"))
+        if do is not None and do[0] == "raise":
+            from .env import ZOO
+            exc = ZOO[do[1]]()
+            pr.raised.append(("T", n, exc))
+            self.fail_stack[id(exc)] = list(self.use_stack)
+            self.fail_info[id(exc)] = (None, self.fn_depth)
+            raise exc
+
     def string_parts(self, parts: list):
         """string: expression / interpolation *value* (before insertion)."""
         vals = []
@@ -168,6 +184,9 @@ class Model:
         if isinstance(v, RawStr):
             return v
         if isinstance(v, bool) or not isinstance(v, (str, int, float)):
+            # neither text nor a number nor markup: the value is offered to
+            # the translation function first (which returns it unchanged)
+            self.translate_call()
             v = str(v)
         elif not isinstance(v, str):
             return str(v)
@@ -216,11 +235,13 @@ class Model:
             return
         if n["on_error"] is None:
             self.element(n, switch_state)
+            self._named_done(n)
             return
         mark = len(self.out)
         self.guard_value.pop(n.get("eid"), None)
         try:
             self.element(n, switch_state)
+            self._named_done(n)
         except Exception as exc:        # noqa: BLE001 - that is the rule
             del self.out[mark:]
             self.handled += 1
@@ -249,10 +270,19 @@ class Model:
                         continue
                     self.out.append(' %s="%s"' % (name, parts[0][1]))
                 self.out.append(">")
-            self.emit_value(self.ev(fe), mode or "text")
+            fv = self.ev(fe)
+            if n.get("translate"):
+                # i18n:translate="" on the element: the fallback value is
+                # passed through the translation function too
+                self.translate_call()
+            self.emit_value(fv, mode or "text")
             if tagged:
                 self.out.append("</" + n["tag"] + ">")
             # (``error`` stays bound after the fallback - observation O3)
+
+    def _named_done(self, n: dict) -> None:
+        if n.get("i18n_name") and self.tr_stack:
+            self.tr_stack[-1]["placeholder"] = True
 
     def element(self, n: dict, switch_state, via_use: bool = False) -> None:
         if n.get("define_macro") and not via_use:
@@ -372,12 +402,17 @@ class Model:
             # the identity translation the message is emitted as it is.
             saved = self.out
             self.out = []
+            self.tr_stack.append({"placeholder": False})
             try:
                 self.children(n, state)
                 msg = "".join(self.out)
             finally:
                 self.out = saved
-            if msg.strip():
+                frame = self.tr_stack.pop()
+            # (a named child that completed leaves a ${name} placeholder in
+            # the message id even when it rendered nothing)
+            if msg.strip() or frame["placeholder"]:
+                self.translate_call()       # identity translation
                 self.out.append(msg)
         else:
             self.children(n, state)
